@@ -31,32 +31,54 @@ def chain(env):
 
 
 def stamping_rule(prog, run, rid):
-    """R6 (shared with C07): every new record is stamped with the detector's current period/stage/sequence number"""
+    """R6 (shared with C07): every new record is stamped with the detector's current period/stage/sequence number.
+    storeLeakInformation is folded with the record initialiser inlined over a heap model."""
     sl = prog.fn(DET + "::storeLeakInformation")
     run.analysed(sl)
-    pn = [p["name"] for p in sl.params]
-    cs = [c for c in sl.calls() if (prog.callee_name(sl, c) or "") == "MemoryLeakDetectorNode::init"]
-    ok = len(cs) == 1
-    args = [render(sl, a) for a in sl.args(cs[0])] if ok else []
-    want = [pn[1], "allocationSequenceNumber_++", pn[2], pn[3], "current_period_", "current_allocation_stage_", pn[4], pn[5]]
-    run.ob(rid, "storeLeakInformation stamps (memory, sequence number++, size, allocator, current period, current stage, file, line)", sl.site, ok and args == want, witness=args,
-           what="" if ok and args == want else "a new record does not carry the period/stage in force when it was allocated: leaks are attributed to the wrong test or report")
     ini = prog.fn("MemoryLeakDetectorNode::init")
     run.analysed(ini)
-    a = {l: render(ini, r) for l, r, n in assignments(ini)}
-    want = {q["name"] + "_": q["name"] for q in ini.params}
-    run.ob(rid, "record init assigns each parameter to the field of the same name", ini.site, {k: v for k, v in a.items() if k != "next_"} == want, witness=a)
+    pn = [p["name"] for p in sl.params]
+    NODE = 5000
+    bad, seq_ok, guard_ok, added_ok, got = {}, True, True, True, {}
+    # two valuations that differ in every component: a constant in place of a current value disagrees with one of them
+    for vs, seqno, period, stage in (((NODE, 70000, 24, 9000, 111000, 77), 41, 3, 7), ((NODE, 80000, 1, 9500, 222000, 5), 1000, 1, 2)):
+        vals = dict(zip(pn, vs))
+        env = dict(vals)
+        env.update({"allocationSequenceNumber_": seqno, "current_period_": period, "current_allocation_stage_": stage})
+        added, guards = [], []
+        ev = Evaluator(prog, sl, env=env, calls={TAB + "::addNewNode": lambda *a_: (added.append(a_[-1]), 0)[1],
+                                                   DET + "::addMemoryCorruptionInformation": lambda *a_: (guards.append(a_[-1]), 0)[1]})
+        ev.heap_mode = True
+        ev.inline = {"MemoryLeakDetectorNode::init"}
+        try:
+            ev.run_blocks(sl.entry, max_steps=400)
+        except Unknown as u:
+            run.broke("%s: storeLeakInformation cannot be folded: %s" % (rid, u))
+            return
+        got = {k[len("@%d." % NODE):]: v for k, v in ev.env.items() if k.startswith("@%d." % NODE)}
+        want = {"memory_": vals[pn[1]], "number_": seqno, "size_": vals[pn[2]], "allocator_": vals[pn[3]], "period_": period, "allocation_stage_": stage, "file_": vals[pn[4]], "line_": vals[pn[5]]}
+        bad.update({k: (got.get(k), v) for k, v in want.items() if got.get(k) != v})
+        seq_ok = seq_ok and ev.env.get("allocationSequenceNumber_") == seqno + 1
+        guard_ok = guard_ok and guards == [vals[pn[1]] + vals[pn[2]]]
+        added_ok = added_ok and added == [NODE]
+    run.ob(rid, "storeLeakInformation folded (two valuations): the record holds (memory, sequence number, size, allocator, current period, current stage, file, line) of this allocation", sl.site, not bad, witness=bad or got,
+           what="" if not bad else "a new record does not carry the period/stage/values in force when it was allocated (field: (stored, expected) %s): leaks are attributed to the wrong test or report" % bad)
+    run.ob(rid, "the sequence number advances by one per record", sl.site, seq_ok)
+    run.ob(rid, "the guard bytes are written directly behind the block (memory + size)", sl.site, guard_ok)
     for f in prog.functions.values():
         if f.cls == DET:
             for c in f.calls():
                 if (prog.callee_name(f, c) or "") == DET + "::storeLeakInformation":
-                    ar = [render(f, x) for x in f.args(c)]
-                    ok = len(ar) == 6 and ar[2:] == ["size", "allocator", "file", "line"] and ar[0] == "node"
-                    run.ob(rid, "%s stores the record of the block it just obtained with the caller's size/allocator/location" % f.name, f.site, ok, witness=ar)
-    sb = prog.fn(TAB + "::addNewNode")
-    al = prog.fn(LST + "::addNewNode")
-    cs = [render(sl, c) for c in sl.calls() if "addNewNode" in render(sl, c)]
-    run.ob(rid, "the stamped record is entered into the table once", sl.site, cs == ["memoryTable_.addNewNode(%s)" % pn[0]], witness=cs)
+                    ar = [f.strip(x) for x in f.args(c)]
+                    names = [x.get("name") if x is not None and x["k"] == "DeclRefExpr" else None for x in ar]
+                    fp = f.params
+                    sizes = [q["name"] for q in fp if q["ct"] == "unsigned long"]
+                    allocs = [q["name"] for q in fp if q["ct"] == "TestMemoryAllocator *"]
+                    files = [q["name"] for q in fp if q["ct"] == "const char *"]
+                    ok = len(ar) == 6 and len(sizes) == 2 and len(allocs) == 1 and len(files) == 1 and names[2:] == [sizes[0], allocs[0], files[0], sizes[1]] \
+                        and ar[0] is not None and ar[0].get("ct") == "MemoryLeakDetectorNode *"
+                    run.ob(rid, "%s stores the record of the block it just obtained with the caller's size/allocator/location" % f.name, f.site, ok, witness=[render(f, x) for x in f.args(c)])
+    run.ob(rid, "the stamped record is entered into the table once", sl.site, added_ok)
 
 
 def check(ctx, run):
@@ -90,57 +112,156 @@ def check(ctx, run):
         if got != addr % hp[0]:
             okh = False
     run.ob("R1", "hash(address) = address mod hash_prime (always below the extent)", hs.site, okh)
-    for meth, arg in (("addNewNode", "node->memory_"), ("removeNode", "memory"), ("retrieveNode", "memory")):
+    HP = hp[0]
+    TINL = {g.qn for g in prog.functions.values() if g.qn.startswith(TAB + "::")}
+    NODE, OTHER = 5000, 6000      # addresses of records (heap model)
+
+    def fold_table(f, env, answers):
+        """fold a table method; every call of a bucket (list) method is recorded as (method, bucket key, args) and answered by
+        answers(method, bucket index, args). Returns (result, [(method, bucket index, args)])."""
+        seq = []
+        ev = Evaluator(prog, f, env=env)
+        ev.heap_mode = True
+        ev.pass_object = "key"
+        ev.inline = TINL
+
+        def mk(qn):
+            def hook(*a_):
+                key = a_[0] if a_ and isinstance(a_[0], str) else None
+                m_ = re.match(r"^table_\[(-?\d+)\]$", key or "")
+                bi = int(m_.group(1)) if m_ else None
+                args = a_[1:] if key is not None else a_
+                seq.append((qn.split("::")[-1], bi, args))
+                return answers(qn.split("::")[-1], bi, args)
+            return hook
+        for g in prog.functions.values():
+            if g.qn.startswith(LST + "::"):
+                ev.calls[g.qn] = mk(g.qn)
+        ev.run_blocks(f.entry, max_steps=20000)
+        r = getattr(ev, "ret", None)
+        if isinstance(r, tuple) and r and r[0] == "unknown":
+            raise Unknown(r[1])
+        return r, seq
+
+    def table_rule(rule, meth, text, cases, what=""):
         f = prog.fn(TAB + "::" + meth)
         run.analysed(f)
-        cs = [render(f, c) for c in f.calls() if ("table_[" in render(f, c))]
-        p0 = f.params[0]["name"]
-        want = "table_[hash(%s)].%s(%s)" % (arg.replace("node", p0).replace("memory", p0) if meth != "addNewNode" else p0 + "->memory_", meth, p0)
-        run.ob("R1", "%s indexes the bucket of the block's own address" % meth, f.site, cs == [want], witness=cs,
-               what="" if cs == [want] else "a record is filed or searched in a bucket other than hash(its address): blocks are lost or never found")
-    for meth in ("getNextLeak", "getNextLeakForAllocationStage"):
-        f = prog.fn(TAB + "::" + meth)
-        run.analysed(f)
-        ini = {k: render(f, v) for k, v in local_inits(f).items()}
-        p0 = f.params[0]["name"]
-        cs = [render(f, c) for c in f.calls() if "table_[" in render(f, c)]
-        iv = [k for k, v in ini.items() if v == "hash(%s->memory_)" % p0]
-        ok = len(iv) == 1 and any(c.startswith("table_[%s].%s(%s, " % (iv[0], meth, p0)) for c in cs)
-        run.ob("R1", "%s continues in the bucket of the given leak" % meth, f.site, ok, witness={"init": ini, "calls": cs})
-        if ok:
-            i_ = iv[0]
-            loops = loop_blocks(f)
-            hd = [b for b in f.blocks.values() if b["id"] in loops and b.get("cond") is not None and "hash_prime" in atom(f, f.nodes[b["cond"]])[0]]
-            cond = atom(f, f.nodes[hd[0]["cond"]]) if hd else None
-            pre = [render(f, n) for n in f.walk() if n["k"] == "UnaryOperator" and n.get("op") == "++" and render(f, n["c"][0]) == i_]
-            inner = [c for c in cs if c.startswith("table_[%s].getFirstLeak" % i_)]
-            okc = cond == ("(%s < hash_prime)" % i_, True) and len(pre) == 2 and len(inner) == 1
-            run.ob("R2", "%s then visits every later bucket [hash+1, hash_prime)" % meth, f.site, okc, witness={"cond": cond, "steps": pre, "inner": inner})
-    for meth, early in (("getTotalLeaks", False), ("clearAllAccounting", False), ("getFirstLeak", True), ("getFirstLeakForAllocationStage", True)):
-        f = prog.fn(TAB + "::" + meth)
-        run.analysed(f)
-        loops = loop_blocks(f)
-        hd = [b for b in f.blocks.values() if b["id"] in loops and b.get("cond") is not None and "hash_prime" in atom(f, f.nodes[b["cond"]])[0]]
-        ini = {k: render(f, v) for k, v in local_inits(f).items()}
-        ok = len(hd) == 1
-        w = {"init": ini}
-        if ok:
-            key, pol = atom(f, f.nodes[hd[0]["cond"]])
-            m = re.match(r"^\((\w+) < hash_prime\)$", key)
-            ok = bool(m) and pol and ini.get(m.group(1)) == "0"
-            if ok:
-                i_ = m.group(1)
-                steps = [render(f, n) for n in f.walk() if n["k"] == "UnaryOperator" and n.get("op") in ("++", "--") and render(f, n["c"][0]) == i_]
-                uses = [render(f, c) for c in f.calls() if "table_[" in render(f, c)]
-                rets_in_loop = [n for n in f.walk() if n["k"] == "ReturnStmt" and in_loop_stmt(f, n)]
-                w.update({"cond": key, "step": steps, "uses": uses})
-                ok = steps in (["%s++" % i_], ["++%s" % i_]) and len(uses) == 1 and uses[0].startswith("table_[%s]." % i_) and (bool(rets_in_loop) == early)
-                if early and ok:
-                    # may only leave early with a found node
-                    for p in enumerate_paths(f):
-                        if p.end == "return" and p.ret is not None and in_loop_stmt(f, p.ret) and p.val().get("node") is not True:
-                            ok = False
-        run.ob("R2", "%s visits every bucket [0, hash_prime)" % meth, f.site, ok, witness=w, what="" if ok else "some buckets are never visited: their blocks are missing from totals, reports or clearing")
+        bad, ncase = None, 0
+        for desc, env, answers, judge in [c_ for pv in (3, 1) for c_ in cases(f, pv)]:
+            ncase += 1
+            try:
+                r, seq = fold_table(f, env, answers)
+            except Unknown as u:
+                run.broke("C04.%s: %s cannot be folded for %s: %s" % (rule, meth, desc, u))
+                return
+            why = judge(r, seq)
+            if why and bad is None:
+                bad = "%s: %s" % (desc, why)
+        run.ob(rule, "%s %s (folded, %d cases)" % (meth, text, ncase), f.site, bad is None, witness=bad or "%d cases" % ncase, what="" if bad is None else (what + ": " if what else "") + bad)
+
+    ADDRS = (0, 1, 72, 73, 74, 4096, 0x7ffff7a0c010, (1 << 64) - 1)
+
+    def file_cases(meth, by_node):
+        def gen(f, pv):
+            for addr in ADDRS:
+                env = {f.params[0]["name"]: NODE if by_node else addr, "@%d.memory_" % NODE: addr}
+                want = addr % HP
+
+                def judge(r, seq, want=want, addr=addr):
+                    if [(m, b) for m, b, a_ in seq] != [(meth, want)]:
+                        return "bucket calls %s, expected one %s on bucket %d" % ([(m, b) for m, b, a_ in seq], meth, want)
+                    if seq[0][2][:1] != ((NODE if by_node else addr),):
+                        return "the bucket is asked about %s" % (seq[0][2],)
+                    if not by_node and r != 777:
+                        return "the bucket's answer is not returned (%s)" % (r,)
+                    return ""
+                yield "address %#x" % addr, env, (lambda m, b, a_: 777), judge
+        return gen
+    for meth, by_node in (("addNewNode", True), ("removeNode", False), ("retrieveNode", False)):
+        table_rule("R1", meth, "files/searches in bucket hash(the block's own address) and nowhere else", file_cases(meth, by_node),
+                   what="a record is filed or searched in a bucket other than hash(its address): blocks are lost or never found")
+
+    def next_cases(meth, first):
+        def gen(f, pv):
+            for addr in (0, 1, 71, 72, 73 + 5, 4096):
+                h = addr % HP
+                for found_in_chain in (True, False):
+                    for k in sorted({h + 1, h + 2, HP - 1, None}, key=lambda x: (x is None, x)):
+                        if k is not None and not (h < k < HP):
+                            continue
+                        if found_in_chain and k is not None:
+                            continue
+                        env = {f.params[0]["name"]: NODE, "@%d.memory_" % NODE: addr, f.params[1]["name"]: pv}
+
+                        def answers(m, b, a_, k=k, found_in_chain=found_in_chain):
+                            if m == meth:
+                                return OTHER if found_in_chain else 0
+                            return OTHER + b if b == k else 0
+
+                        def judge(r, seq, h=h, k=k, found_in_chain=found_in_chain, pv=pv):
+                            calls = [(m, b) for m, b, a_ in seq]
+                            if calls[:1] != [(meth, h)] or seq[0][2][:1] != (NODE,):
+                                return "does not continue in the given leak's own chain (bucket %d): %s" % (h, calls[:2])
+                            if any(a_[-1:] != (pv,) for m, b, a_ in seq):
+                                return "a bucket is asked with another period/stage than the caller's: %s" % ([a_ for m, b, a_ in seq][:3],)
+                            if found_in_chain:
+                                return "" if calls == [(meth, h)] and r == OTHER else "a leak found in the chain is not returned at once: %s -> %s" % (calls[:3], r)
+                            last = k if k is not None else HP - 1
+                            want = [(meth, h)] + [(first, b) for b in range(h + 1, last + 1)]
+                            if calls != want:
+                                return "visits buckets %s, expected %d..%d in order" % ([b for m, b in calls[1:]][:6], h + 1, last)
+                            wr = OTHER + k if k is not None else 0
+                            return "" if r == wr else "returns %s, expected %s" % (r, wr)
+                        yield "leak in bucket %d, %s" % (h, "next in its chain" if found_in_chain else ("next leak in bucket %s" % k if k is not None else "no later leak")), env, answers, judge
+        return gen
+    table_rule("R1", "getNextLeak", "continues in the bucket of the given leak", next_cases("getNextLeak", "getFirstLeak"))
+    table_rule("R1", "getNextLeakForAllocationStage", "continues in the bucket of the given leak", next_cases("getNextLeakForAllocationStage", "getFirstLeakForAllocationStage"))
+    table_rule("R2", "getNextLeak", "then visits every later bucket [hash+1, hash_prime) in order until a leak is found", next_cases("getNextLeak", "getFirstLeak"),
+               what="some buckets are never visited: their leaks are missing from the report")
+    table_rule("R2", "getNextLeakForAllocationStage", "then visits every later bucket [hash+1, hash_prime) in order until a leak is found", next_cases("getNextLeakForAllocationStage", "getFirstLeakForAllocationStage"),
+               what="some buckets are never visited: their leaks are missing from the report")
+
+    def all_cases(meth, arity):
+        def gen(f, pv):
+            env = {q["name"]: pv for q in f.params}
+
+            def judge(r, seq, pv=pv):
+                calls = [(m, b) for m, b, a_ in seq]
+                if sorted(calls) != [(meth, b) for b in range(HP)] or len(calls) != HP:
+                    missing = sorted(set(range(HP)) - {b for m, b in calls})
+                    return "buckets visited %d times; never visited: %s" % (len(calls), missing[:5])
+                if any(a_ != (pv,) * arity for m, b, a_ in seq):
+                    return "a bucket is called with %s" % ([a_ for m, b, a_ in seq if a_ != (pv,) * arity][0],)
+                if meth == "getTotalLeaks" and r != sum(b + 1 for b in range(HP)):
+                    return "the total is %s, the buckets add up to %d" % (r, sum(b + 1 for b in range(HP)))
+                return ""
+            yield "every bucket answers its index + 1", env, (lambda m, b, a_: (b + 1) if b is not None else 0), judge
+        return gen
+    table_rule("R2", "getTotalLeaks", "visits every bucket [0, hash_prime) once and adds up their totals", all_cases("getTotalLeaks", 1),
+               what="some buckets are never visited: their blocks are missing from totals, reports or clearing")
+    table_rule("R2", "clearAllAccounting", "visits every bucket [0, hash_prime) once", all_cases("clearAllAccounting", 1),
+               what="some buckets are never visited: their blocks are missing from totals, reports or clearing")
+
+    def first_cases(meth):
+        def gen(f, pv):
+            for k in (0, 1, 36, HP - 2, HP - 1, None):
+                env = {q["name"]: pv for q in f.params}
+
+                def judge(r, seq, k=k, pv=pv):
+                    calls = [(m, b) for m, b, a_ in seq]
+                    last = k if k is not None else HP - 1
+                    if calls != [(meth, b) for b in range(0, last + 1)]:
+                        return "visits buckets %s..., expected 0..%d in order" % ([b for m, b in calls][:6], last)
+                    if any(a_ != (pv,) for m, b, a_ in seq):
+                        return "a bucket is asked with another period/stage than the caller's"
+                    wr = OTHER + k if k is not None else 0
+                    return "" if r == wr else "returns %s, expected %s" % (r, wr)
+                yield ("first leak in bucket %d" % k) if k is not None else "no leak", env, (lambda m, b, a_, k=k: OTHER + b if b == k else 0), judge
+        return gen
+    table_rule("R2", "getFirstLeak", "visits every bucket [0, hash_prime) in order until a leak is found and returns it", first_cases("getFirstLeak"),
+               what="some buckets are never visited: their blocks are missing from totals, reports or clearing")
+    table_rule("R2", "getFirstLeakForAllocationStage", "visits every bucket [0, hash_prime) in order until a leak is found and returns it", first_cases("getFirstLeakForAllocationStage"),
+               what="some buckets are never visited: their blocks are missing from totals, reports or clearing")
 
     # ---------------- R3 ----------------------------------------------------
     ip = prog.fn(LST + "::isInPeriod")
@@ -247,7 +368,7 @@ def check(ctx, run):
         names = [(prog.callee_name(rm, c) or "").split("::")[-1] for c in path_calls(prog, rm, p)]
         mv = p.val().get(rm.params[1]["name"])
         if mv is True:
-            nd = p.val().get("node")
+            nd = next((v for k, v in origin_val(rm, p).items() if "removeNode(" in k), None)
             if nd is False:
                 ok = names.count("reportDeallocateNonAllocatedMemoryFailure") == 1 and "reallocateMemoryAndLeakInformation" not in names
             else:
@@ -323,16 +444,28 @@ def check(ctx, run):
             role = s[:-len("_fptr")]
             fam = re.sub(r"_(nothrow|debug)$", "", role)
             getter = GET.get(fam)
-            dc = [c for c in f.calls() if (prog.callee_name(f, c) or "").split("::")[-1] in ("allocMemory", "deallocMemory", "reallocMemory")]
+            # the detector call is made by the function itself or by a free helper of the same file it delegates to
+            def deep_calls(g, depth=2):
+                out = []
+                for c in g.calls():
+                    out.append((g, c))
+                    cc = c.get("callee")
+                    h = prog.functions.get(cc["mn"]) if cc and cc.get("dispatch") == "direct" else None
+                    if h is not None and depth > 0 and h.kind == "function" and h.file == g.file and h is not g and not h.cls:
+                        out += deep_calls(h, depth - 1)
+                return out
+            dcs = [(g, c) for g, c in deep_calls(f) if (prog.callee_name(g, c) or "").split("::")[-1] in ("allocMemory", "deallocMemory", "reallocMemory")]
+            dc = [c for g, c in dcs]
             ok = len(dc) == 1 and getter is not None
             w = None
             if ok:
-                a = [render(f, x) for x in f.args(dc[0])]
+                f_ = dcs[0][0]
+                a = [render(f_, x) for x in f_.args(dc[0])]
                 w = a
                 sep = a[-1] if a[-1] in ("true", "false") else None
                 is_malloc = fam in ("malloc", "free", "realloc")
                 want_meth = {"operator_new": "allocMemory", "operator_new_array": "allocMemory", "malloc": "allocMemory", "operator_delete": "deallocMemory", "operator_delete_array": "deallocMemory", "free": "deallocMemory", "realloc": "reallocMemory"}[fam]
-                ok = a[0] == getter and (prog.callee_name(f, dc[0]) or "").endswith(want_meth) and ((sep == "true") == is_malloc or (sep is None and not is_malloc))
+                ok = a[0] == getter and (prog.callee_name(f_, dc[0]) or "").endswith(want_meth) and ((sep == "true") == is_malloc or (sep is None and not is_malloc))
                 if ok and sep is None and not is_malloc:
                     # default argument of the short overloads must be false
                     pass
